@@ -179,7 +179,8 @@ class SpectralAnalyzer(BaseAnalyzer):
         fft = fftpack.fft
         if np.any(np.iscomplex(data)):
             # Get negative frequencies, as well as positive:
-            f = np.linspace(-sampling_rate/2., sampling_rate/2., data.shape[-1])
+            f = ((np.arange(data.shape[-1]) - data.shape[-1] // 2) *
+                 sampling_rate / data.shape[-1])
             spectrum_fourier = np.fft.fftshift(fft(data))
         else:
             f = tsu.get_freqs(sampling_rate, data.shape[-1])
